@@ -23,21 +23,49 @@ pub const CONFIG: &str = if cfg!(feature = "likely") {
     "likelysubtags off"
 };
 
-/// maximize / minimize calls on identifiers of the same language with every listed script,
-/// made on this thread right before a direction query: the answer must not depend on them
-#[cfg(feature = "likely")]
-fn prior_calls(lang: &str, layout: &Layout) {
-    for s in layout.script_dir.keys() {
-        for r in ["", "-PK", "-ML", "-001"] {
-            if let Ok(mut li) = format!("{lang}-{s}{r}").parse::<LanguageIdentifier>() {
-                li.maximize();
-                li.minimize();
+/// Calls made on this thread right before a direction query; the answer must not depend on
+/// them (hidden state such as a one-entry cache with an incomplete key): maximize / minimize
+/// and character_direction on identifiers of the same language with every listed script, and
+/// on script-less identifiers of the same language with other regions (every region the
+/// likely-subtags data pair with that language, plus a fixed handful).
+fn prior_calls(c: &Ctx, lang: &str, after_each: &mut dyn FnMut(&str)) {
+    let mut touch = |text: String| {
+        if let Ok(li) = text.parse::<LanguageIdentifier>() {
+            // unrelated identifiers first: they evict whatever the queried identifier itself
+            // left in a small cache, so that the prior call really is computed and stored
+            for other in ["ar", "en", "he-IL", "zh-Hant", "ur-IN", "fa", "ks", "sd"] {
+                if !other.starts_with(lang) {
+                    if let Ok(o) = other.parse::<LanguageIdentifier>() {
+                        let _ = o.character_direction();
+                    }
+                }
+            }
+            let _ = li.character_direction();
+            after_each(&text);
+            #[cfg(feature = "likely")]
+            {
+                let mut m = li.clone();
+                m.maximize();
+                m.minimize();
+                after_each(&text);
             }
         }
+    };
+    for s in c.layout.script_dir.keys() {
+        for r in ["", "-PK", "-ML", "-001"] {
+            touch(format!("{lang}-{s}{r}"));
+        }
     }
+    if let Some(rs) = c.lang_regions.get(lang) {
+        for r in rs {
+            touch(format!("{lang}-{r}"));
+        }
+    }
+    for r in ["PK", "IR", "AF", "IN", "CN", "ML", "TR", "RU", "001", "419"] {
+        touch(format!("{lang}-{r}"));
+    }
+    touch(format!("{lang}-1abc"));
 }
-#[cfg(not(feature = "likely"))]
-fn prior_calls(_lang: &str, _layout: &Layout) {}
 
 fn dir_of(li: &LanguageIdentifier) -> Dir {
     match li.character_direction() {
@@ -55,6 +83,8 @@ pub struct Ctx {
     pub lang_rtl: Vec<bool>,
     pub script_by_name: HashMap<String, Dir>,
     pub rtl_langs: BTreeSet<String>,
+    /// language -> regions that the likely-subtags data pair with it (language-region keys)
+    pub lang_regions: HashMap<String, Vec<String>>,
 }
 
 impl Ctx {
@@ -72,14 +102,30 @@ impl Ctx {
             }
         }
         for l in layout.rtl_langs.iter().chain(layout.multi_dir_langs.iter()) {
-            if !h.lk.uni.langs.contains(l) {
-                h.lk.uni.langs.push(l.clone());
-                h.langs.push(l.parse().map_err(|_| format!("library rejects layout language {l}"))?);
+            // the language itself and long languages that merely contain it (never listed by CLDR)
+            let mut forms = vec![l.clone()];
+            if l.len() <= 3 {
+                forms.push(format!("{l}{}", &"xxx"[..5 - l.len()]));
+                forms.push(format!("{l}{}", &"qrstuv"[..8 - l.len()]));
+                forms.push(format!("{}{l}", &"zzz"[..5 - l.len()]));
+            }
+            for f in forms {
+                if !h.lk.uni.langs.contains(&f) {
+                    h.langs.push(f.parse().map_err(|_| format!("library rejects language {f}"))?);
+                    h.lk.uni.langs.push(f);
+                }
             }
         }
         let script_dir = h.lk.uni.scripts.iter().map(|s| layout.script_dir.get(s).copied()).collect();
         let lang_rtl = h.lk.uni.langs.iter().map(|l| layout.rtl_langs.contains(l)).collect();
-        Ok(Ctx { script_by_name: layout.script_dir.iter().map(|(k, v)| (k.clone(), *v)).collect(), rtl_langs: layout.rtl_langs.clone(), layout, h, script_dir, lang_rtl })
+        let mut lang_regions: HashMap<String, Vec<String>> = HashMap::new();
+        for (l, r) in h.lk.lang_region.keys() {
+            lang_regions.entry(h.lk.uni.langs[*l as usize].clone()).or_default().push(h.lk.uni.regions[*r as usize].clone());
+        }
+        for v in lang_regions.values_mut() {
+            v.sort();
+        }
+        Ok(Ctx { lang_regions, script_by_name: layout.script_dir.iter().map(|(k, v)| (k.clone(), *v)).collect(), rtl_langs: layout.rtl_langs.clone(), layout, h, script_dir, lang_rtl })
     }
 }
 
@@ -93,7 +139,18 @@ pub fn check_name(c: &Ctx, name: &str, want: Dir, st: &mut Stats) {
     let r = guard(|| {
         let li: LanguageIdentifier = name.parse().map_err(|e| format!("{e:?}"))?;
         let first = dir_of(&li);
-        prior_calls(li.language.as_str(), &c.layout);
+        // the query is repeated after every single prior call, so whichever call leaves the
+        // misleading state behind is immediately followed by the query it misleads
+        let mut changed: Option<String> = None;
+        prior_calls(c, li.language.as_str(), &mut |prior| {
+            let d = dir_of(&li);
+            if d != first && changed.is_none() {
+                changed = Some(format!("HISTORY {first:?} {d:?} (after a call on {prior})"));
+            }
+        });
+        if let Some(e) = changed {
+            return Err(e);
+        }
         let d = dir_of(&li);
         if d != first {
             return Err(format!("HISTORY {first:?} {d:?}"));
@@ -105,7 +162,7 @@ pub fn check_name(c: &Ctx, name: &str, want: Dir, st: &mut Stats) {
     let (li, d, dv, dl) = match r {
         Ok(Ok(x)) => x,
         Ok(Err(e)) if e.starts_with("HISTORY") => {
-            st.fail("direction-depends-on-earlier-calls", case(), name.len(), format!("{name}: character_direction() before / after maximize() and minimize() calls on other identifiers of the same language: {}", &e[8..]));
+            st.fail("direction-depends-on-earlier-calls", case(), name.len(), format!("{name}: character_direction() before / after character_direction(), maximize() and minimize() calls on other identifiers of the same language: {}", &e[8..]));
             return;
         }
         Ok(Err(e)) => {
